@@ -25,7 +25,7 @@ UNITS = cal.UNITS
 
 
 def bounds(tier, seed):
-    return {"zones": ["UTC"] + list(ZONES), "calendar_days": "2020-2021 every day x 2 tods" + (" + 1999-2004" if tier == "thorough" else ""),
+    return {"zones": ["UTC"] + list(ZONES), "calendar_days": "2020-2021 every day x 2 tods" + (" + 1969-71, 1999-2004, 2018-25, 2037-38, 2100" if tier == "thorough" else ""),
             "dst_minutes": "00:00-04:59 on %d transition dates" % len(DST_DAYS),
             "scale_cases": "C15 instants; C16/C14 reduced grids", "exports": "C07 datetime datasets n<=2, default and explicit options"}
 
@@ -33,7 +33,7 @@ def bounds(tier, seed):
 # ------------------------------------------------------------------ case lists (JSON-able descriptors)
 def cal_instants(tier):
     out = []
-    years = (2020, 2021) if tier == "quick" else (1999, 2000, 2001, 2002, 2003, 2004, 2020, 2021)
+    years = (2020, 2021) if tier == "quick" else tuple(range(1969, 1972)) + tuple(range(1999, 2005)) + tuple(range(2018, 2026)) + (2037, 2038, 2100)
     for y in years:
         for d in timegrid.all_days(y, y):
             out += [("day", d), ("day", d + timegrid.TOD1)]
